@@ -37,6 +37,8 @@ let next_report c =
   { r_week = week; r_lastweek = lastweek; r_x = x; r_config = cfgv; r_programs = progs }
 
 let esc b = String.escaped (string_of_bytes b)
+let show_ident i =
+  String.concat "|" (List.map esc [i.id_program; i.id_version; i.id_goversion; i.id_goos; i.id_goarch])
 let verdict_name = function
   | VOk -> "ok" | VBadWeek -> "week" | VBadConfig -> "config" | VBadX -> "x"
   | VUnknownBuild -> "build" | VUnknownCounter -> "counter" | VUnknownStack -> "stack"
@@ -89,14 +91,22 @@ let handle kind c =
      | _ -> ());
     let nv = next_int c in
     for _ = 1 to nv do server_case c u cfg ~from_uploader:false ~what:"variant" done;
+    (* the real uploader's report at X = 0 on the whole week *)
+    let up0 = (match next c with
+        | "some" -> let r = next_report c in Some r.r_programs
+        | _ -> None) in
+    (match up0 with
+     | Some ps ->
+       let mp = filter_upload cfg N0 (aggregate files) in
+       let keys ps = List.sort Stdlib.compare (List.concat_map (fun (i, (cs, ss)) ->
+           List.map (fun (k, _) -> show_ident i ^ "/" ^ string_of_bytes k) (cs @ ss)) ps) in
+       check_eq "upload-at-x0" show_names (keys mp) (keys ps)
+     | None -> ());
     List.iter (fun f ->
         let cls = next c in
         let names = List.sort Stdlib.compare (List.map string_of_bytes (next_strs c)) in
         let meta = List.init 5 (fun _ -> next_bool c) in
         let active = next_list c (fun c -> let k = next_bytes c in let a = next_bool c in (k, a)) in
-        let up0 = (match next c with
-            | "some" -> let r = next_report c in Some r.r_programs
-            | _ -> None) in
         let who = "file<" ^ esc f.f_ident.id_program ^ ">" in
         (* model vs implementation *)
         let ms = viewer_summary cfg f in
@@ -109,14 +119,6 @@ let handle kind c =
         let norm l = List.sort Stdlib.compare (List.map (fun (k, a) -> (string_of_bytes k, a)) l) in
         check_eq "viewer-active" (fun l -> String.concat "," (List.map (fun (k, a) -> String.escaped k ^ "=" ^ string_of_bool a) l))
           (norm (viewer_active cfg f)) (norm active);
-        (* the model's uploader at X = 0 on this file alone *)
-        (match up0 with
-         | Some ps ->
-           let mp = filter_upload cfg N0 (aggregate [f]) in
-           let keys ps = List.sort Stdlib.compare (List.concat_map (fun (i, (cs, ss)) ->
-               List.map (fun (k, _) -> string_of_bytes i.id_program ^ "/" ^ string_of_bytes k) (cs @ ss)) ps) in
-           check_eq "upload-at-x0" show_names (keys mp) (keys ps)
-         | None -> ());
         (* oracle on the implementation's verdicts *)
         let isummary = (match cls with
             | "program" -> Some SProgram | "osarch" -> Some SOsArch | "goversion" -> Some SGoVersion
